@@ -196,3 +196,30 @@ func harnessC16ConcurrentRegister() {
 	}
 	vCover("raced")
 }
+
+//verif:entry property=C16 tier=both bounds="bus options: every list of K WithUpcast(from,to) options over 3 names given to New (K_quick=3, K_thorough=4); the resulting registry must be acyclic and equal to what RegisterUpcastFunc would have accepted in that order" cover="built" K_quick=3 K_thorough=4
+func harnessC16WithUpcastOptions() {
+	K := vParam("K", 3)
+	names := []string{"A", "B", "C"}
+	var opts []Option
+	var edges []c16Edge
+	for i := 0; i < K; i++ {
+		f, t := names[vPick(3)], names[vPick(3)]
+		opts = append(opts, WithUpcast(f, t, c16Dummy))
+		if f != t && !c16Reaches(edges, t, f) {
+			edges = append(edges, c16Edge{f, t})
+		}
+	}
+	bus := New(opts...)
+	vAssert(c16Count(bus.upcastRegistry) == len(edges), "options-register-like-RegisterUpcastFunc")
+	var got []c16Edge
+	for _, l := range bus.upcastRegistry.upcasters {
+		for _, u := range l {
+			got = append(got, c16Edge{u.FromType, u.ToType})
+		}
+	}
+	for _, e := range got {
+		vAssert(!c16Reaches(got, e.t, e.f), "registry-built-from-options-is-acyclic")
+	}
+	vCover("built")
+}
